@@ -393,6 +393,18 @@ def check_disjoint_set(fx, rep):
             if n.get("k") == "Struct" and "ops::Range" in str(n.get("adt")):
                 from_range = True
         rep.oblige(from_map and not from_range, "R19.2", "sets-enumerates-all", F.loc(ss["span"]), "sets() does not enumerate the roots from the representative map itself (it walks an index range): a root whose key is not below the number of stored elements is skipped, so its set is never handed out" if not from_map or from_range else "", sample={"rule": "R19.2", "roots_from": "representative map" if from_map and not from_range else "index range"})
+        # a root is an element that is its own parent: the enumeration keeps exactly the self-referential entries (a stored parent
+        # is a root only while every path is fully compressed)
+        self_test = any(n.get("k") == "Binary" and n["op"] == "Eq" for n, _ in F.walk(root))
+        parents = any(n.get("k") == "MethodCall" and n["method"] in ("values", "into_values", "values_mut") and field_of_self(T.term(n["recv"], T.Env()), reps) for n, _ in F.calls(root))
+        rep.oblige(self_test and not parents, "R19.2", "sets-roots-are-self-parents", F.loc(ss["span"]), "sets() does not select the roots as the entries that are their own parent (it takes stored parents as roots, or has no `key == parent` test): an inner node of an uncompressed chain is handed out as an extra set, or a member as a root", sample={"rule": "R19.2", "root_test": "key == parent"})
+    # values() lists the members (the keys of the representative map), not the parents stored under them
+    vs = fns.get("values")
+    if rep.anchor("R19.2", vs is not None, "DisjointSet::values"):
+        root = vs["hir"]["value"]
+        keys = any(n.get("k") == "MethodCall" and n["method"] in ("indices", "keys", "iter", "into_iter") and field_of_self(T.term(n["recv"], T.Env()), reps) for n, _ in F.calls(root))
+        parents = any(n.get("k") == "MethodCall" and n["method"] in ("values", "into_values", "values_mut") and field_of_self(T.term(n["recv"], T.Env()), reps) for n, _ in F.calls(root))
+        rep.oblige(keys and not parents, "R19.2", "values-enumerates-members", F.loc(vs["span"]), "values() does not list the keys of the representative map (it lists the parents stored under them): after a union the absorbed elements are missing and roots are repeated", sample={"rule": "R19.2", "members_from": "keys of the representative map"})
     # insert makes a singleton: reps.insert(&value, value)
     i = fns.get("insert")
     if rep.anchor("R19.4", i is not None, "DisjointSet::insert"):
